@@ -126,12 +126,12 @@ func ensureBuild(race bool) (*build, error) {
 			iargs = append(iargs, "-replace-dir", regen)
 		}
 		iargs = append(iargs, ".", "./cmd/protoc-gen-gorums/dev")
-		out, err := run(verifDir, nil, filepath.Join(dir, "gomc-instr"), iargs...)
+		out, err := run(verifDir, instrEnv(), filepath.Join(dir, "gomc-instr"), iargs...)
 		if err != nil && len(iargs) > 8 {
 			// regenerated stubs that do not type-check: fall back to the committed ones (C16/C17 report the breakage)
 			fmt.Fprintf(os.Stderr, "verif: warning: regenerated dev stubs do not compile (the committed stubs are used): %s\n", firstLines(out, 3))
 			iargs = []string{"-repo", repoDir, "-out", filepath.Join(dir, "ov"), "-extra", filepath.Join(verifDir, "extra"), ".", "./cmd/protoc-gen-gorums/dev"}
-			out, err = run(verifDir, nil, filepath.Join(dir, "gomc-instr"), iargs...)
+			out, err = run(verifDir, instrEnv(), filepath.Join(dir, "gomc-instr"), iargs...)
 		}
 		if err != nil {
 			os.Remove(filepath.Join(dir, "ov", "overlay.json"))
@@ -170,15 +170,16 @@ func buildGenerators(dir string) error {
 	if _, err := os.Stat(filepath.Join(dir, "gencheck")); err == nil {
 		return nil
 	}
-	if out, err := run(repoDir, nil, "go", "build", "-o", filepath.Join(dir, "protoc-gen-gorums"), "./cmd/protoc-gen-gorums"); err != nil {
+	inRepo := []string{"GOFLAGS=-mod=mod"} // commands run inside the repository's own module never use the alternative modfile
+	if out, err := run(repoDir, inRepo, "go", "build", "-o", filepath.Join(dir, "protoc-gen-gorums"), "./cmd/protoc-gen-gorums"); err != nil {
 		return fmt.Errorf("building protoc-gen-gorums from the working tree: %v\n%s", err, out)
 	}
-	if out, err := run(repoDir, nil, "go", "build", "-o", filepath.Join(dir, "protoc-gen-go"), "google.golang.org/protobuf/cmd/protoc-gen-go"); err != nil {
+	if out, err := run(repoDir, inRepo, "go", "build", "-o", filepath.Join(dir, "protoc-gen-go"), "google.golang.org/protobuf/cmd/protoc-gen-go"); err != nil {
 		return fmt.Errorf("building protoc-gen-go: %v\n%s", err, out)
 	}
 	// plugin with its map ranges routed through mc.Keys (order chosen by GOMC_MAPORDER)
 	os.MkdirAll(filepath.Join(dir, "ovgen"), 0o755)
-	if out, err := run(verifDir, nil, filepath.Join(dir, "gomc-instr"), "-repo", repoDir, "-out", filepath.Join(dir, "ovgen"), "./cmd/protoc-gen-gorums/gengorums"); err != nil {
+	if out, err := run(verifDir, instrEnv(), filepath.Join(dir, "gomc-instr"), "-repo", repoDir, "-out", filepath.Join(dir, "ovgen"), "./cmd/protoc-gen-gorums/gengorums"); err != nil {
 		return fmt.Errorf("instrumenting gengorums: %v\n%s", err, out)
 	}
 	if out, err := run(verifDir, nil, "go", "build", "-overlay", filepath.Join(dir, "ovgen", "overlay.json"), "-o", filepath.Join(dir, "protoc-gen-gorums-mc"), "github.com/relab/gorums/cmd/protoc-gen-gorums"); err != nil {
@@ -215,3 +216,6 @@ func pruneBuilds(base, keep string) {
 		}
 	}
 }
+
+// instrEnv: the instrumenter loads packages with the go command inside the repository module.
+func instrEnv() []string { return []string{"GOFLAGS=-mod=mod"} }
